@@ -15,6 +15,40 @@ func flattenSum(t *Term) []*Term {
 	return []*Term{t}
 }
 
+// voteVerified: the path carries VerifySignature(...) == true for this vote's
+// extension signature, under the key stored for the same address, over the
+// length-delimited CanonicalVoteExtension{chainID, height, round, this vote's extension}.
+func voteVerified(p *Path, vote, addrKey string) bool {
+	for i := range p.Events {
+		ev := &p.Events[i]
+		if ev.Kind != EvFact || !ev.Pol || ev.Cond.Op != "call" || !strings.HasSuffix(ev.Cond.Name, "PubKey).VerifySignature") {
+			continue
+		}
+		pk, msg, sig := ev.Cond.Args[0], ev.Cond.Args[1], ev.Cond.Args[2]
+		if sig.Key() != vote+".ExtensionSignature" {
+			continue
+		}
+		// key: PubKeyFromProto(GetPubKeyByConsAddr(valStore, ctx, same addr).0).0
+		pkOK := strings.Contains(pk.Key(), "PubKeyFromProto((opchild/l2connect.ValidatorStore).GetPubKeyByConsAddr(valStore, ctx, "+addrKey+").0).0")
+		// message: marshal closure over &cve
+		msgOK := false
+		if msg.Op == "extract" && msg.Name == "0" && msg.Args[0].Op == "call" && strings.Contains(msg.Args[0].Name, "ValidateVoteExtensions$1") {
+			for j := 0; j < i; j++ {
+				e2 := &p.Events[j]
+				if e2.Kind == EvCall && e2.Call.String() == msg.Args[0].String() && len(e2.ArgVals) > 0 && e2.ArgVals[0] != nil {
+					cve := e2.ArgVals[0]
+					msgOK = project(cve, "ChainId", nil).Key() == "chainID" && project(cve, "Height", nil).Key() == "height" &&
+						project(cve, "Round", nil).Key() == "int64(extCommit.Round)" && project(cve, "Extension", nil).Key() == vote+".VoteExtension"
+				}
+			}
+		}
+		if pkOK && msgOK {
+			return true
+		}
+	}
+	return false
+}
+
 func propC15(c *Ctx) {
 	c.Clauses = append(c.Clauses,
 		"UpdateOracle handler: ApplyOracleUpdate only after the executor check and with BridgeInfo.BridgeConfig.OracleEnabled",
@@ -222,34 +256,7 @@ func propC15(c *Ctx) {
 				}
 				known := p.factIs(len(p.Events), "("+pw.String()+".1 == nil)", true)
 				commit := p.HasFact(len(p.Events), func(a *Term, pol bool) bool { return pol && eqAtom(a, vote+".BlockIdFlag", "2") })
-				verified := false
-				for i := range p.Events {
-					ev := &p.Events[i]
-					if ev.Kind != EvFact || !ev.Pol || ev.Cond.Op != "call" || !strings.HasSuffix(ev.Cond.Name, "PubKey).VerifySignature") {
-						continue
-					}
-					pk, msg, sig := ev.Cond.Args[0], ev.Cond.Args[1], ev.Cond.Args[2]
-					if sig.Key() != vote+".ExtensionSignature" {
-						continue
-					}
-					// key: PubKeyFromProto(GetPubKeyByConsAddr(valStore, ctx, same addr).0).0
-					pkOK := strings.Contains(pk.Key(), "PubKeyFromProto((opchild/l2connect.ValidatorStore).GetPubKeyByConsAddr(valStore, ctx, "+addr.Key()+").0).0")
-					// message: marshal closure over &cve
-					msgOK := false
-					if msg.Op == "extract" && msg.Name == "0" && msg.Args[0].Op == "call" && strings.Contains(msg.Args[0].Name, "ValidateVoteExtensions$1") {
-						for j := 0; j < i; j++ {
-							e2 := &p.Events[j]
-							if e2.Kind == EvCall && e2.Call.String() == msg.Args[0].String() && len(e2.ArgVals) > 0 && e2.ArgVals[0] != nil {
-								cve := e2.ArgVals[0]
-								msgOK = project(cve, "ChainId", nil).Key() == "chainID" && project(cve, "Height", nil).Key() == "height" &&
-									project(cve, "Round", nil).Key() == "int64(extCommit.Round)" && project(cve, "Extension", nil).Key() == vote+".VoteExtension"
-							}
-						}
-					}
-					if pkOK && msgOK {
-						verified = true
-					}
-				}
+				verified := voteVerified(p, vote, addr.Key())
 				if !known || !commit || !verified {
 					o.Fail(c.W.Pos(fn.Pos()), fmt.Sprintf("power of %s counted without: validator in stored set [%v], commit flag [%v], verified signature over (chain id, height, round, extension) with the stored key [%v]", vote, known, commit, verified), c.Dump(p, -1))
 				}
@@ -257,6 +264,40 @@ func propC15(c *Ctx) {
 		}
 		if nOK == 0 || nCounted == 0 {
 			o.Fail(c.W.Pos(fn.Pos()), fmt.Sprintf("accepting paths=%d, counted votes=%d (floor 1 each)", nOK, nCounted), nil)
+		}
+		// every vote that survives validation (and therefore reaches vote decoding and
+		// aggregation in UpdateOracle) was classified
+		o3 := c.Ob("C15.R3", "ValidateVoteExtensions: every vote iterated on an accepting path is unknown to the stored set, or non-commit with an empty extension, or commit with a verified extension signature (no entry reaches aggregation unverified)")
+		for _, p := range c.Paths(fn, po) {
+			o3.Paths++
+			if p.Panic || !p.OK() {
+				continue
+			}
+			for k := 0; ; k++ {
+				vote := fmt.Sprintf("extCommit.Votes[%d]", k)
+				if !p.factIs(len(p.Events), fmt.Sprintf("(%d < builtin.len(extCommit.Votes))", k), true) {
+					break
+				}
+				o3.Sites++
+				var pw *Term
+				for i := range p.Events {
+					ev := &p.Events[i]
+					if ev.Kind == EvCall && strings.HasSuffix(ev.Call.Name, "ValidatorStore).GetPowerByConsAddr") && ev.Call.Args[0].Key() == "valStore" && ev.Call.Args[2].Key() == vote+".Validator.Address" {
+						pw = ev.Call
+					}
+				}
+				unknown := pw != nil && p.factIs(len(p.Events), "("+pw.String()+".1 == nil)", false)
+				nonCommit := p.HasFact(len(p.Events), func(a *Term, pol bool) bool { return !pol && eqAtom(a, vote+".BlockIdFlag", "2") })
+				rel, n := p.Relation(len(p.Events), keyIs("builtin.len("+vote+".VoteExtension)"), keyIs("0"))
+				emptyExt := n > 0 && rel == rEQ
+				verified := voteVerified(p, vote, vote+".Validator.Address")
+				if !(unknown || nonCommit && emptyExt || verified) {
+					o3.Fail(c.W.Pos(fn.Pos()), fmt.Sprintf("%s passes validation unclassified: unknown validator [%v], non-commit [%v] with empty extension [%v], verified signature [%v]", vote, unknown, nonCommit, emptyExt, verified), c.Dump(p, -1))
+				}
+			}
+		}
+		if o3.Sites == 0 {
+			o3.Fail(c.W.Pos(fn.Pos()), "no iterated vote on any accepting path (floor 1)", nil)
 		}
 		// the marshal closure encodes exactly its argument
 		mf := anonOf(c, fn, 0)
